@@ -120,6 +120,12 @@ fn work(args: &[String]) -> ExitCode {
         let n_violations = rep.violations.len() as u64;
         for v in rep.violations {
             let key = format!("{}|{}", v.violation.class, v.violation.signature);
+            if !violations.contains_key(&key) {
+                // written out at once: a worker that is killed later must not take its findings with it
+                if let Ok(mut f) = std::fs::OpenOptions::new().create(true).append(true).open(format!("{out}.viol")) {
+                    let _ = writeln!(f, "{}", json!({"first_run": run, "count": 1, "found": &v}));
+                }
+            }
             violations.entry(key).and_modify(|e| e.1 += 1).or_insert((v, 1, run));
         }
         for o in rep.other_observations {
